@@ -23,13 +23,13 @@ RULE = ("grids of 1-12 combinations, repetitions 1-6 (>=2 for variance modes), a
         "seeded durations / ties / stalled workers); non-trivial = >=3 combinations with the optimum not at an end, or "
         "a tie for best, or |score| > sys.maxsize; distinct = (mode, combinations, repetitions, processes, best index, "
         "tie?, magnitude class, completion permutation)"
-        "; also: numpy integer scores, sibling ParameterList edited before the search, duplicate combinations handled in the oracle; real-pool arm changes program state between two parallel searches; rare switch for known finding F9")
+        "; also: numpy integer scores, sibling ParameterList edited before the search, duplicate combinations handled in the oracle; real-pool arm changes program state between two parallel searches; rare switch for known finding F9, parameters named like the search code's own arguments (max_timesteps, model_cls, mode, ...)")
 COMPONENTS = {"real": ["ECAgent.Batching.grid_search", "_run_model_for_search", "_score_model_for_search", "ParameterList",
                        "statistics.mean/variance as called by the package", "ECAgent.Core.Model / SystemManager"],
               "stub": ["multiprocessing.Pool -> simkit.simpool.SimPool", "models and score function are harness workloads"]}
 PROBES = ["mode_0", "mode_1", "mode_2", "mode_3", "mode_4", "mode_5", "mode_6", "mode_7", "tie_for_best",
           "negative_only", "single_combination", "beyond_maxsize", "optimum_first", "optimum_middle", "optimum_last",
-          "parallel_reordered", "float_scores", "numpy_integer_scores"]
+          "parallel_reordered", "float_scores", "numpy_integer_scores", "parameter_named_like_a_batching_argument"]
 TECHNIQUE = "deterministic simulation: serial vs simulated-parallel schedules of the same search, exact Fraction recomputation of every aggregate and of the best"
 LEVEL_TEXT = ("Seeded search over grids, modes, score tables and simulated pool schedules; every aggregate and the returned best "
               "are compared with an exact rational recomputation and the serial and simulated-parallel outcomes must be "
@@ -77,6 +77,8 @@ def generate(rng, tier):
             size *= len(as_list(s))
         if 1 <= size <= (16 if tier == "thorough" else 12):
             break
+    if rng.random() < 0.12 and grid[0][0] not in ("records", "score"):
+        grid[0][0] = rng.choice(W.SPECIAL_NAMES)
     mode = rng.randrange(8)
     reps = rng.randint(2 if mode >= 6 else 1, 8 if tier == "thorough" else 6)
     style = rng.choice(["small", "small", "neg", "big", "bigpos", "bigneg", "float", "mid", "mid"])
@@ -152,6 +154,8 @@ def run_search(ctx, sc, processes, label):
         table.setdefault(s, sc["scores"][i % len(sc["scores"])])
     W.reset({"base_stop": sc["base_stop"], "spread": sc["spread"], "scores": table,
              "collectors_defined": [["col0", 1]], "numpy_scores": bool(sc.get("numpy_scores"))})
+    if any(n_ in W.SPECIAL_NAMES for n_ in names):
+        ctx.probe("parameter_named_like_a_batching_argument")
     stats = {}
     kwargs = {"processes": processes, "repetitions": int(sc["reps"]), "mode": B.ScoreMode(int(sc["mode"]) % 8)}
     if sc["max_ts"] is not None:
